@@ -48,6 +48,18 @@ var props = map[string]propCfg{
 		Thorough:  tierCfg{Runs: 400000, Workers: 16, Budget: 9 * time.Minute, Seeds: 5},
 		Rule:      "one run = one middleware instance (Validator strict/non-strict with default or custom ErrFunc/LogFunc, or ValidationHandler.ServeHTTP/Middleware) over a seeded document-family member and a history of 1-4 requests (routable or not, valid or invalid by construction, body delivered by a chunk plan with optional mid-body fault) each answered by a scripted handler (call-sequence shape drawn from: silent, status-only, write-only, pieces, multi-status, write-then-status, informational-first, flush variants) observed by a net/http-faithful client writer with optional write fault. A run is non-trivial when it has at least one request; distinct = distinct (mode, ErrFunc, document member, router, history length, handler-shape sequence, auth behaviour, multi-error) tuples.",
 		DesignRef: "§3 SIM-MW"},
+	"C13": {Sim: "stream", Quick: tierCfg{Runs: 48000, Workers: 16, Budget: 60 * time.Second, Seeds: 1},
+		Thorough:  tierCfg{Runs: 800000, Workers: 16, Budget: 9 * time.Minute, Seeds: 5},
+		Rule:      "one run = one request handed through the parties client stream -> authentication callbacks -> validation (1 or 2 validations with seeded options) -> next handler, over a seeded document (security requirement shapes at operation/document level; defaulted query/header/cookie parameters incl. arrays with explode true/false/unset; JSON body with defaults at top level, nested, in array items, inside allOf/oneOf/anyOf, object- and array-valued; form, multipart, text, undeclared bodies) with a seeded chunk plan, GetBody nil/ok/err, ContentLength exact/-1, Body nil/NoBody/empty, optional mid-body fault followed by a fault-free request on the same document. Oracles R1 (forwarded body readable in full; ContentLength/GetBody consistent), R2 (defaults exactly once against the ApplyDefaults reference model and the declared serialisation; byte identity when defaults are skipped; forwarded request validates again unchanged). Distinct = distinct (security shapes, parameter set, body kind/mode, GetBody, ContentLength, chunk-plan length, fault, options, callback behaviours) tuples.",
+		DesignRef: "§3 SIM-STREAM"},
+	"C07": {Sim: "stream", Quick: tierCfg{Runs: 48000, Workers: 16, Budget: 60 * time.Second, Seeds: 1},
+		Thorough:  tierCfg{Runs: 800000, Workers: 16, Budget: 9 * time.Minute, Seeds: 5},
+		Rule:      "same runs as C13 biased to documents with security requirements; oracle R3: verdict and failing-part set of validation #1 equal those of a neutral run (same bytes as one in-memory chunk, non-reading callback with the same outcomes) whatever the chunk plan, GetBody/ContentLength variant and the callbacks' reading behaviour (none / part / all / close / body-dependent signature check); callbacks invoked with the same (scheme, scopes) sequence and always finding the full body; a stream error observed by the library is never followed by acceptance. Clause-scoped: the security/parameter truth table itself is not decided.",
+		DesignRef: "§3 SIM-STREAM, §4 C07"},
+	"C08": {Sim: "stream", Quick: tierCfg{Runs: 48000, Workers: 16, Budget: 60 * time.Second, Seeds: 1},
+		Thorough:  tierCfg{Runs: 800000, Workers: 16, Budget: 9 * time.Minute, Seeds: 5},
+		Rule:      "one run = ValidateResponse over a response-body stream (seeded chunk plan, optional mid-body fault followed by a fault-free response) for a seeded response map (exact / class / default entries, with or without content, schema, required header), status (incl. 204/301/304/307/308), method (POST/HEAD), headers and body, options (multi-error, exclude body, strict status). Oracles: afterwards input.Body is non-nil and yields the original bytes to EOF on every return path; the verdict equals that over the same bytes in memory; a stream error observed by the library is never followed by acceptance. Clause-scoped: selection of the entry and schema checks are not decided. Distinct = distinct (entry count, status, method, chunk-plan length, fault, options) tuples.",
+		DesignRef: "§3 SIM-STREAM, §4 C08"},
 }
 
 func main() {
